@@ -23,7 +23,7 @@ RULE = ('raw property graphs (1-12 nodes, random edges, 0-6 properties per node/
         'serialized in both formats and imported through every entry point on both stores. One evaluation = one '
         '(model, format, entry point) round trip; a case is distinct by (content hash, format, entry point, store) '
         'and non-trivial if the model has >=1 edge and >=1 property value with a character outside [A-Za-z0-9]')
-REQUIRED_ALL = ['scenario:interleaved', 'rt:GRAPHML', 'rt:JSON_NODELINK', 'ep:from_string_newid', 'ep:from_string_noid', 'ep:from_string_direct',
+REQUIRED_ALL = ['scenario:interleaved', 'scenario:stitched', 'rt:GRAPHML', 'rt:JSON_NODELINK', 'ep:from_string_newid', 'ep:from_string_noid', 'ep:from_string_direct',
             'ep:from_file_newid', 'ep:from_file_direct', 'ep:topology_load_string', 'ep:topology_load_file',
             'ep:topology_load_string_newid', 'store:shared', 'store:disjoint', 'markup-checked', 'second-generation',
             'src:raw-api', 'src:raw-storage', 'src:repo-file', 'src:topology', 'validated-copy']
@@ -302,6 +302,51 @@ def scenario_interleaved(env, store, graph, src_desc):
         ctx.violation('C01/interleaved-scenario-raises', f'{type(e).__name__}: {str(e)[:200]}', w)
 
 
+def scenario_stitched(env, store, graph, src_desc):
+    """The model is stitched to another model of the same store the public way (merge_nodes on a shared NodeID: the other
+    model's edges are re-pointed onto this model's node, so edges now cross between two graphs - the state a combined model
+    is in between merging and re-homing).  Serializing THIS model must still give exactly this model."""
+    from fim.graph.abc_property_graph import GraphFormat
+    ctx = env.ctx
+    imp, cls = env.imps[store]
+    if store != 'shared':
+        return
+    gid = graph.graph_id
+    base = canon.graph_snapshot(imp, gid)
+    if base is None or not base['nodes']:
+        return
+    w = {'store': store, 'source': src_desc.get('source'), 'case': src_desc.get('case'), 'scenario': 'stitched'}
+    other_id = fresh_id('other')
+    try:
+        imp.import_graph_from_string(graph_string=graph.serialize_graph(format=GraphFormat.GRAPHML), graph_id=other_id)
+        other = cls(graph_id=other_id, importer=imp)
+        # a node with neighbours, so that edges really cross afterwards
+        cands = set()
+        for k in base['edges']:
+            try:
+                cands.update(json.loads(k.replace('<dup>', '')))
+            except ValueError:
+                pass
+        cands = sorted(c for c in cands if c in base['nodes'])
+        if not cands:
+            return
+        x = ctx.rng.choice(cands)
+        graph.merge_nodes(node_id=x, other_graph=other)
+    except Exception as e:
+        ctx.count('scenario:stitched-setup-refused')
+        imp.delete_graph(graph_id=other_id)
+        return
+    _, facts = canon.store_snapshot(imp)
+    if not facts.get('cross_graph_edges'):
+        ctx.count('scenario:stitched-without-crossing-edges')
+    else:
+        ctx.count('scenario:stitched')
+        fmt = ctx.rng.choice([GraphFormat.GRAPHML, GraphFormat.JSON_NODELINK])
+        round_trip(env, store, graph, dict(src_desc, case=[src_desc.get('case'), 'stitched-at', x]), fmts=[fmt],
+                   eps=ctx.rng.sample(ENTRY_POINTS, 2))
+    imp.delete_graph(graph_id=other_id)
+
+
 # --------------------------------------------------------------------------- sources
 def src_raw(env, rng, i):
     store = 'shared' if i % 2 == 0 else 'disjoint'
@@ -393,6 +438,8 @@ def run(ctx):
             round_trip(env, s, g, d)
             if i % 3 == 0:
                 scenario_interleaved(env, s, g, d)
+            if i % 3 == 1:
+                scenario_stitched(env, s, g, d)
             env.imps[s][0].delete_all_graphs()
             if ctx.out_of_time():
                 break
